@@ -37,6 +37,12 @@ def prepare(rnd, ids):
             txt += "\nKNOWN, ALREADY ACCEPTED LIMITATIONS of the unchanged code (do NOT use these as your breakage):\n"
             for f in opens:
                 txt += " - %s\n" % str(f.get("what", f.get("key", "")))[:300].replace("\n", " ")
+        try:
+            hint = json.load(open(os.path.join(VERIF, "tools", "seedhints.json"))).get(pid)
+        except Exception:  # noqa
+            hint = None
+        if hint:
+            txt += "\nHINT: %s Choose a code path that none of the changes listed above touched.\n" % hint
         open(os.path.join(od, "property.txt"), "w").write(txt)
         base = subprocess.check_output(["git", "-C", "/repo", "rev-parse", "--short", "HEAD"], text=True).strip()
         open(os.path.join(od, "BASE"), "w").write(base)
